@@ -10,6 +10,7 @@ from afkak.common import (
     BrokerResponseError,
     CancelledError,
     FailedPayloadsError,
+    KafkaUnavailableError,
     LeaderUnavailableError,
     ProduceResponse,
     RequestTimedOutError,
@@ -153,7 +154,8 @@ def make_scenario(job, groups):
                     is_retry = True
             first_attempt = not is_retry
             if first_attempt:
-                cur = st["cur"] = {"attempts": [], "acked": set(), "failed_prev": None, "t_prev": None, "sends": set()}
+                cur = st["cur"] = {"attempts": [], "acked": set(), "failed_prev": None, "t_prev": None, "sends": set(),
+                                   "meta_fails": st.pop("meta_fails_pending", 0)}
                 st["batches"].append(cur)
             # segment each payload into sends, in submission order
             for tp in tps:
@@ -294,10 +296,20 @@ def make_scenario(job, groups):
             cur["t_prev"] = clock.seconds()
             if whole == 1:
                 st["faults"] -= 1
-                ctx.log("produce-fails", "LeaderUnavailable")
+                # a Kafka-level failure of the whole call: a broker error code, or the client being unable to reach any broker
+                # while re-resolving the leaders (KafkaUnavailableError is a KafkaError but not a BrokerResponseError)
+                which = ctx.choose("call_error", 2)
+                ctx.log("produce-fails", "LeaderUnavailable" if which == 0 else "KafkaUnavailable")
                 cur["failed_prev"] = set(tps)
+                n_att = len(cur["attempts"])
+                pend_before = [s for tp in tps for s in rec["payloads"][tp]["sends"] if not s.res]
                 finish_if_done(cur, all_failed=True)
-                client.fail(p, LeaderUnavailableError("no leader"))
+                client.fail(p, LeaderUnavailableError("no leader") if which == 0 else KafkaUnavailableError("no broker reachable"))
+                # with attempts left the producer retries; it does not give up on a retriable failure before the limit
+                gave_up = [s.idx for s in pend_before if s.res and not s.cancelled]
+                used = n_att + cur.get("meta_fails", 0)
+                ctx.check(sym_or(used >= maxatt, not gave_up), "retriable-failure-retried-until-attempt-limit",
+                          "after %d of %s attempts (produce + failed metadata loads) a retriable failure made the producer fail sends %r at once" % (used, maxatt, gave_up))
                 return
             if whole == 2:
                 st["faults"] -= 1
@@ -381,6 +393,11 @@ def make_scenario(job, groups):
                     client.topic_errors[t] = UnknownTopicOrPartitionError.errno
             if not ok:
                 st["faults"] -= 1
+                # a failed metadata load uses up one of the batch's attempts (Producer._req_attempts counts both kinds)
+                if st["cur"] is not None:
+                    st["cur"]["meta_fails"] = st["cur"].get("meta_fails", 0) + 1
+                else:
+                    st["meta_fails_pending"] = st.get("meta_fails_pending", 0) + 1
             ctx.log("metadata-reply", ok)
             client.resolve(p, True)
 
@@ -512,6 +529,11 @@ def make_scenario(job, groups):
             batch_monitor("drain")
         lost = [s.idx for s in sends if not s.res and s.in_requests > 0]
         ctx.check(not lost, "fires-exactly-once", "sends %r were dispatched, every request is resolved, yet their Deferreds never fired" % (lost,))
+        if not st["stopped"]:
+            # a send that has not fired once everything is resolved and no timer is left must still be waiting in the queue for
+            # a batching threshold; one that left the queue (was dispatched) and never fired is lost
+            hung = [s.idx for s in sends if not s.res and not any(r.deferred is s.d for r in producer._batch_reqs)]
+            ctx.check(not hung, "fires-exactly-once", "sends %r left the queue, nothing is outstanding any more, yet their Deferreds never fired" % (hung,))
         if any(not s.res for s in sends) and not st["stopped"] and job.get("batch"):
             # sends still queued below the batching thresholds: stopping must fail them (they then have fired once)
             st["stopped"] = True
